@@ -90,6 +90,7 @@ def score_block(case):
         scale = np.sqrt(mag) if family == "mmd" else mag
     targets = _targets(family, kw, default_affinity)
     v, nt, n_eval, outs = [], 0, 0, []
+    shared = {label: factory() for label, _, _, factory in targets}      # one long-lived object per target, reused for every matrix of the shard
     for P in _P_iter(K, n, first, generic_seed):
         refs = {}
         nontrivial = False
@@ -101,6 +102,12 @@ def score_block(case):
             got_aff = g.compute_affinity(X, y)
             got = float(g(P.copy(), got_aff))
             n_eval += 1
+            gs_ = shared[label]
+            got_shared = float(gs_(P.copy(), gs_.compute_affinity(X, y)))
+            if got_shared != got:
+                v.append(violation("score_depends_on_what_the_object_saw_before", {"target": label, "P": P, "fresh_object": got, "reused_object": got_shared,
+                                                                                 "history": "the same GEMINI object evaluated on the previous matrices of the shard"},
+                                   target=label, dist=dist, mode=mode, K=K, n=n, via="reused_object"))
             if abs(got - expected) > ref.tol(dist, expected, slack, scale) or not np.isfinite(got):
                 v.append(violation("score_mismatch", {"target": label, "P": P, "affinity": tag, "got": got, "expected": expected},
                                    target=label, dist=dist, mode=mode, K=K, n=n, via="call"))
@@ -190,6 +197,28 @@ def score_block(case):
             nt += 1
         if len(outs) < 4:
             outs.append(tuple(round(x[0], 9) for x in refs.values()))
+    # the long-lived objects are finally asked on another shape (one more sample, one more cluster)
+    if generic_seed is None:
+        X2 = aff.dataset(n + 1, 2, seed + 1, nonneg=aff.needs_nonneg(tag) if family == "mmd" else False)
+        P2 = np.random.RandomState(seed + n + K).dirichlet(np.ones(K + 1), size=n + 1)
+        for label, dist, mode, factory in targets:
+            try:
+                if family == "mmd":
+                    _, y2, _ = aff.kernel_reference(tag, X2, seed)
+                elif family == "wasserstein":
+                    _, y2, _ = aff.metric_reference(tag, X2, seed)
+                else:
+                    y2 = None
+                a_ = float(shared[label](P2.copy(), shared[label].compute_affinity(X2, y2)))
+                f_ = factory()
+                b_ = float(f_(P2.copy(), f_.compute_affinity(X2, y2)))
+            except Exception as e:  # noqa
+                a_, b_ = repr(e)[:100], None
+            n_eval += 1
+            if a_ != b_:
+                v.append(violation("score_depends_on_what_the_object_saw_before", {"target": label, "fresh_object": b_, "reused_object": a_,
+                                                                                 "history": "object used on (n,K) then on (n+1,K+1)"},
+                                   target=label, dist=dist, mode=mode, K=K, n=n, via="reused_object_other_shape"))
     return {"v": v[:30], "stats": {"evals": n_eval, "nt_distinct": nt}, "out": outs,
             "sample": {"family": family, "K": K, "n": n, "affinity": tag, "first_row": ref.interior_rows(K)[first] if generic_seed is None else "dirichlet",
                        "targets": [t[0] for t in targets]}}
